@@ -30,6 +30,7 @@ type Obligation struct {
 	Block   int
 	Detail  map[string]string
 	Clause  *Clause
+	Env     *specEnv
 	// results
 	Status  string // discharged, failed, unknown, cover-ok, cover-vacuous
 	Solver  string
@@ -74,6 +75,8 @@ type VC struct {
 	addrs    map[ssa.Value]*addr
 	tuples   map[ssa.Value][]string
 	funcIDs  map[string]int
+	usedContracts map[string]bool
+	lastEnv  *specEnv
 	globals  []string
 	deferInfo map[*ssa.Defer]*callInfo
 	reach    map[*ssa.BasicBlock]string
@@ -125,7 +128,7 @@ func NewVC(p *Program, c *Contracts, fn *ssa.Function, fc *FuncContract) *VC {
 		keyMetas: map[string]keyMeta{}, strLits: map[string]int{"": 0}, strList: []string{""},
 		typeIDs: map[string]int{}, counts: map[string]int{}, Abstract: map[string]int{},
 		loops: map[*ssa.BasicBlock]*loopInfo{}, backEdge: map[[2]int]bool{}, callOrd: map[string]int{},
-		params: map[string]sval{}, siteUsed: map[*Clause]int{}, tuples: map[ssa.Value][]string{}, funcIDs: map[string]int{}, deferInfo: map[*ssa.Defer]*callInfo{}}
+		params: map[string]sval{}, siteUsed: map[*Clause]int{}, tuples: map[ssa.Value][]string{}, funcIDs: map[string]int{}, usedContracts: map[string]bool{}, deferInfo: map[*ssa.Defer]*callInfo{}}
 	return vc
 }
 
@@ -559,6 +562,10 @@ func (vc *VC) oblige(kind, detail, goal string, tags []string, pos token.Pos, cl
 	}
 	if cl != nil {
 		o.Text, o.File, o.Line = cl.Text, cl.File, cl.Line
+		if vc.lastEnv != nil {
+			e := *vc.lastEnv
+			o.Env = &e
+		}
 	}
 	vc.Obls = append(vc.Obls, o)
 	return o
